@@ -139,7 +139,8 @@ def parse_sidecar(path):
                 anchor, tail = qstr(rest)
                 toks = tail.split()
                 nm = [t_[5:] for t_ in toks if t_.startswith('name=')]
-                h = dict(where=where, anchor=anchor, ord=int(toks[0]) if toks and toks[0].lstrip('-').isdigit() else 0,
+                of_ = [int(t_[3:]) for t_ in toks if t_.startswith('of=')]
+                h = dict(where=where, anchor=anchor, ord=int(toks[0]) if toks and toks[0].lstrip('-').isdigit() else 0, of=of_[0] if of_ else None,
                          lines=[], optional='optional' in toks, raw='raw' in toks, exact='exact' in toks, name=nm[0] if nm else None, tags=parse_tags(tail))
                 cur.hints.append(h)
                 sink = h['lines']
@@ -228,6 +229,7 @@ class Out:
 
 # ------------------------------------------------------------------------------------------------ rewrites (DESIGN 2.2)
 NOTICES = []
+HINT_COUNTS = {}
 REWRITE_LOG = []
 
 
@@ -594,6 +596,11 @@ def inject(spec, text, contract, warnings, vac=False):
     for h in spec.hints:
         hits = [i for i, (l, m) in enumerate(blines) if (l.strip() == h['anchor'] if h.get('exact') else h['anchor'] in l) and m.get('kind') == 'body']
         k = h['ord']
+        HINT_COUNTS[(fnm, h['where'], h['anchor'], k)] = len(hits)
+        if h.get('of') is not None and len(hits) != h['of'] and not (k >= len(hits) or (k < 0 and -k > len(hits))):
+            # the anchor line occurs a different number of times than on the pinned tree: the ordinal may now select another
+            # occurrence, so the hint is still placed but a failure of this function is not trusted as a verdict
+            warnings.append('%s: hint anchor %r occurs %d times (pinned tree: %d); ordinal #%d may select a different place' % (fnm, h['anchor'], len(hits), h['of'], k))
         if k >= len(hits) or (k < 0 and -k > len(hits)):
             msg = '%s: hint anchor %r #%d not found (%d hits)' % (fnm, h['anchor'], k, len(hits))
             warnings.append(msg)
